@@ -218,6 +218,7 @@ def check(an: Analysis) -> None:
         w = gs.search([gs.entry], lambda n: n in later, skip_node=lambda n: n in dn, skip_edge=both(normal_only, skipnone))
         if w is not None:
             ob.fail(sen, dn[0].ast, "with disposables present the scope's state/metrics are entered before (or without) entering the disposables", CFG.show_path(w))
+    c02.disposables_exit_attempted(an, ob)
     gsa = an.cfg(sa)
     dxn = call_nodes(an, gsa, c02.D_EXIT)
     if dxn:
@@ -250,6 +251,9 @@ def check(an: Analysis) -> None:
             arms["state"] = bool(rets) and all(isinstance(r.value, (ast.Tuple, ast.List)) and len(r.value.elts) == 1 and is_name(r.value.elts[0], pat.name) for r in rets)
         elif isinstance(pat, ast.MatchAs) and pat.pattern is None and pat.name and case.guard is None:
             arms["other"] = bool(rets) and all(is_name(r.value, pat.name) for r in rets)
+            uses = [x for s_ in case.body for x in ast.walk(s_) if isinstance(x, ast.Name) and x.id == pat.name]
+            if len(uses) != len(rets):
+                ob.fail(init_, case, "the yielded iterable is touched before it is handed on: a one-shot iterable (generator, map, iterator) is consumed and its state silently lost")
         else:
             ob.fail(init_, case, "unexpected arm: some yielded values are dropped or mis-wrapped")
     for k, ok in arms.items():
